@@ -393,11 +393,11 @@ impl<'a> SerCx<'a> {
                 if any.is::<datafusion::datasource::MemTable>() {
                     "mem"
                 } else if any.is::<datafusion::datasource::listing::ListingTable>() {
-                    // single-path listing tables accept INSERT (a new object next to / at the path);
-                    // multi-path ones refuse it
+                    // a listing table over a directory accepts INSERT (new objects under it); one over
+                    // plain files -- what register_metrics_table_for_chunks builds -- refuses it
                     let lt = any.downcast_ref::<datafusion::datasource::listing::ListingTable>().unwrap();
-                    if lt.table_paths().len() == 1 {
-                        "chunk"
+                    if lt.table_paths().len() == 1 && lt.table_paths()[0].is_collection() {
+                        "fresh"
                     } else {
                         "noinsert"
                     }
